@@ -513,7 +513,10 @@ pub fn default_cfg() -> Cfg {
 pub const SCENARIO_BASE: u64 = 10_000_000;
 /// 0..4: the four scenarios in the canonical process environment; 4..8: the same four under an odd one (Turkish
 /// locale, three CPUs); 8: scenario 0 under an address-space limit (failing allocations).
-pub const SCENARIOS: u64 = 15;
+pub const SCENARIOS: u64 = 16;
+/// Scenario 15: code points that agree in their low 8, 16 or 20 bits, built one after the other on one thread under
+/// every pair of escaping settings (whatever is keyed by a truncated or bit-packed code point confuses them).
+pub const SCENARIO_ALIASES: u64 = 15;
 /// Scenario 13: a crowd — twelve clients parked at the same in-build site at the same time, for every site.
 pub const SCENARIO_CROWD: u64 = 13;
 /// Scenario 14: a large foreign build (more than a thousand distinct test cases) in the gap at every visit of a small one.
@@ -597,6 +600,58 @@ pub fn scenario_runs(k: u64, verif_seed: u64) -> Vec<RunSpec> {
             }
         }
         return runs;
+    }
+    if k == SCENARIO_ALIASES {
+        // Families of code points that coincide when truncated to 8, 16 or 20 bits or when a flag is packed into bit 16
+        // or 20 of a key. Every ordered pair of a family is built back to back on one thread, under every pair of
+        // escaping settings (off, plain, surrogate pairs) and once case-insensitively; a second run splits the same
+        // list over two clients that alternate.
+        let mut rng = Rng::new(derive(verif_seed, &[0x414C4941, 0]));
+        let bases = [0xE9u32, 0xFC, 0x20AC, 0x2665, 0x1F4A9, 0x10400];
+        let esc = [None, Some(false), Some(true)];
+        let mut ops: Vec<Op> = vec![];
+        for base in bases {
+            let mut fam: Vec<char> = vec![];
+            for cp in [base, base & 0xFF, base & 0xFFFF, base | 0x1_0000, (base & 0xFFFF) | 0x1_0000, base | 0x10_0000, (base & 0xFFFF) | 0x10_0000, (base & 0xFF) | 0x100] {
+                if cp >= 0x80 {
+                    if let Some(c) = char::from_u32(cp) {
+                        if !fam.contains(&c) {
+                            fam.push(c);
+                        }
+                    }
+                }
+            }
+            for a in &fam {
+                for b in &fam {
+                    if a == b {
+                        continue;
+                    }
+                    for (i, ea) in esc.iter().enumerate() {
+                        for (j, eb) in esc.iter().enumerate() {
+                            if i == 0 && j == 0 {
+                                continue;
+                            }
+                            for (c, e) in [(a, ea), (b, eb)] {
+                                ops.push(Op::New { slot: 0, cases: vec![format!("x{}y", c), format!("{}{}", c, c), "q".into()] });
+                                if let Some(s) = e {
+                                    ops.push(Op::Set { slot: 0, setter: Setter::Escape(*s) });
+                                }
+                                if (i + j) % 3 == 0 {
+                                    ops.push(Op::Set { slot: 0, setter: Setter::IgnoreCase });
+                                }
+                                ops.push(Op::Build { slot: 0 });
+                            }
+                        }
+                    }
+                }
+            }
+        }
+        let one = spec(vec![ops.clone()], &mut rng, vec![], "run-to-completion");
+        // two clients: the list cut in two halves at a build boundary, alternating at every API call
+        let cut = ops.iter().enumerate().filter(|(_, o)| matches!(o, Op::New { .. })).map(|(i, _)| i).nth(ops.iter().filter(|o| matches!(o, Op::New { .. })).count() / 2).unwrap_or(0);
+        let (first, second) = ops.split_at(cut);
+        let two = spec(vec![first.to_vec(), second.to_vec()], &mut rng, vec![], "round-robin");
+        return vec![one, two];
     }
     if k >= SCENARIO_MEMORY_LIMITED {
         // one client, two builds of automata with roughly a thousand states (the elimination matrix has states^2 cells)
